@@ -195,10 +195,10 @@ def run_case(spec):
             srcs = pl["srcs"]
             if len(srcs) == len(shadow) + 1 and srcs[:-1] == [x[0] for x in shadow]:
                 src = srcs[-1]
-                shadow.append((src, has_ck.get(src, False) or src not in ever_ck))
+                shadow.append([src, has_ck.get(src, False) or src not in ever_ck, 0])
                 o.count("decided:pbt_clone_source_choices")
             elif srcs != [x[0] for x in shadow]:
-                shadow = [(x, None) for x in srcs]  # probe out of step: no claim about these entries
+                shadow = [[x, None, 0] for x in srcs]  # probe out of step: no claim about these entries
         elif k == "s.suggest.ret":
             rr = pl["ret"]
             expect_copy = rr["ckpt"] if (rr is not None and rr["spawn"] and rr["ckpt"] is not None) else None
@@ -206,6 +206,10 @@ def run_case(spec):
             popped = None
             if expect_copy is not None and shadow and shadow[-1][0] == expect_copy:
                 popped = shadow.pop()
+            if rr is not None and rr["spawn"] and rr["ckpt"] is None:
+                for ent in shadow:
+                    ent[2] += 1  # a trial was started from scratch although this clone decision was pending (PBT's suggest pops
+                    #              the latest pending decision whenever there is one)
         elif k == "b.start_trial.ret":
             state[pl["ret"]["trial_id"]] = "running"
             if expect_copy is not None and not copied:
@@ -223,6 +227,10 @@ def run_case(spec):
             if src in ever_ck and not has_ck.get(src, False):
                 if popped is not None and popped[0] == src and popped[1] is False:
                     V("checkpoint_exists_at_warm_start", "clone_source_chosen_after_its_checkpoint_was_deleted", src=src, tgt=tgt, src_state=state.get(src))
+                elif popped is not None and popped[0] == src and popped[2] > 0:
+                    # not C20-K1 (source stopped within the batch in which it was chosen, before the very next suggestion)
+                    V("checkpoint_exists_at_warm_start", "clone_decision_skipped_by_a_from_scratch_suggestion_and_used_after_its_source_was_deleted",
+                      src=src, tgt=tgt, from_scratch_suggestions_meanwhile=popped[2])
                 else:
                     V("checkpoint_exists_at_warm_start", "warm_start_from_deleted_checkpoint", src=src, tgt=tgt, src_state=state.get(src))
         elif k == "b.copy_checkpoint.ret":
